@@ -142,14 +142,16 @@ def _pool_map(jobs_list, jobs):
 def run_seeded(prop: str, jobs: int = 16) -> dict:
     """Apply each seeded change written for `prop` to a scratch copy of the package and run the property's rules on it.
     A patch that no longer applies to the current tree is skipped."""
-    out = {"applied": 0, "reported": 0, "skipped": 0, "missed": []}
+    out = {"applied": 0, "reported": 0, "skipped": 0, "missed": [], "not_decided": []}
     if not SEEDED.is_dir():
         return out
-    todo = []
+    todo, undecided = [], {}
     for d in sorted(SEEDED.iterdir()):
         meta_p, patch = d / "meta.json", d / "patch.diff"
-        if meta_p.exists() and patch.exists() and json.loads(meta_p.read_text()).get("property") == prop:
+        if meta_p.exists() and patch.exists() and (meta := json.loads(meta_p.read_text())).get("property") == prop:
             todo.append(("seed", prop, str(d)))
+            if meta.get("not_decided"):
+                undecided[d.name] = meta["not_decided"]  # kept on record: a change this family cannot decide (reason in the meta file)
     for name, status, new in _pool_map(todo, jobs):
         if status == "skipped":
             out["skipped"] += 1
@@ -157,6 +159,8 @@ def run_seeded(prop: str, jobs: int = 16) -> dict:
         out["applied"] += 1
         if new:
             out["reported"] += 1
+        elif Path(name).name in undecided or name in undecided:
+            out["not_decided"].append({"change": Path(name).name, "reason": undecided.get(Path(name).name, undecided.get(name))})
         else:
             out["missed"].append(name)
     return out
@@ -210,7 +214,8 @@ def run_for(prop: str, jobs: int = 16) -> int:
     print(f"[{prop}] self-validation: {summary['armed_fired']} armed fired, {summary['neutral_silent']} neutral silent, "
           f"{summary['skipped']} skipped, {len(fails)} failed")
     print(f"[{prop}] seeded changes written for this property: {seeded['applied']} applied, {seeded['reported']} reported, "
-          f"{seeded['skipped']} no longer apply, missed: {seeded['missed']}")
+          f"{seeded['skipped']} no longer apply, missed: {seeded['missed']}"
+          + (f", on record as not decidable by this family: {[x['change'] for x in seeded['not_decided']]}" if seeded["not_decided"] else ""))
     print(f"[{prop}] independent neutral refactorings: {neutral['applied']} applied, {neutral['silent']} silent, "
           f"{neutral['skipped']} no longer apply, false alarms: {neutral['false_alarms']}")
     for r in fails:
